@@ -146,7 +146,7 @@ class ThreadHarness:
                     tr_ = mine[-1].tr
                     closes = [o for o in w.net.ledger if o.kind == "close" and o.tr is tr_ and o.task != name]
                     if closes:
-                        ch = closes[0].args.get("closed_from", [])
+                        ch = closes[0].closed_from or []
                         closed_by = next((c for c in ch if "connection_pool.py" in c or "_response_closed" in c or "http_proxy" in c), ch[0] if ch else None)
                 viol("collateral-failure", f"thread {name} ({kind}) failed with {exc_class(e)}: {e} raised at {site}; its connection was closed by another thread from {closed_by}",
                      exc=exc_class(e), site=site, closed_by=closed_by)
